@@ -33,6 +33,7 @@ import (
 	"io"
 	"math/big"
 	"os"
+	"os/exec"
 	"sort"
 	"strings"
 	"sync"
@@ -1993,24 +1994,112 @@ func udKeyPhases(o *udOut) {
 	}
 }
 
+// udParent: the iterations run in a child process (this binary again). Real connections run in
+// them; a panic in one of a connection's own goroutines kills the process it happens in. When the
+// child dies, the iteration it had started is reported (udial/panic) and a new child resumes
+// behind it.
+func udParent(w *bufio.Writer, seed uint64, n int, args []string) {
+	from := 0
+	for restart := 0; restart < 8; restart++ {
+		cmd := exec.Command(os.Args[0], append([]string{"udial", fmt.Sprint(seed), fmt.Sprint(n), "child=1", fmt.Sprintf("from=%d", from)}, args...)...)
+		cmd.Env = os.Environ()
+		var out, errb bytes.Buffer
+		cmd.Stdout, cmd.Stderr = &out, &errb
+		err := cmd.Run()
+		last, lastIdx := "", -1
+		for _, ln := range strings.Split(out.String(), "\n") {
+			if strings.HasPrefix(ln, "START\t") {
+				if f := strings.SplitN(ln, "\t", 3); len(f) == 3 {
+					fmt.Sscanf(f[1], "%d", &lastIdx)
+					last = f[2]
+				}
+				continue
+			}
+			if ln != "" {
+				fmt.Fprintln(w, ln)
+			}
+		}
+		if err == nil {
+			return
+		}
+		first := ""
+		var where []string
+		for _, ln := range strings.Split(errb.String(), "\n") {
+			if first == "" && (strings.HasPrefix(ln, "panic:") || strings.HasPrefix(ln, "fatal error:")) {
+				first = ln
+			}
+			if strings.Contains(ln, "uquic") && strings.Contains(ln, "(") && !strings.HasPrefix(ln, "\t") && !strings.Contains(ln, "verifdrv") && len(where) < 5 {
+				fn := strings.TrimSpace(ln)
+				if i := strings.LastIndex(fn, "("); i > 0 {
+					fn = fn[:i]
+				}
+				where = append(where, strings.TrimPrefix(fn, "github.com/refraction-networking/uquic"))
+			}
+		}
+		if first == "" {
+			first = strings.TrimSpace(errb.String())
+			if len(first) > 300 {
+				first = first[:300]
+			}
+		}
+		fmt.Fprintf(w, "MONFAIL\tudial/panic\tthe process dies while running this iteration (%v): %s in %s\t%s\n", err, first, strings.Join(where, " <- "), last)
+		if lastIdx < 0 {
+			return
+		}
+		from = lastIdx + 1
+	}
+}
+
 func runUDial(w *bufio.Writer, seed uint64, n int, args []string) {
+	only, child, from := "", false, 0
+	var pass []string
+	for _, a := range args {
+		switch {
+		case strings.HasPrefix(a, "only="):
+			only = a[5:]
+			pass = append(pass, a)
+		case a == "child=1":
+			child = true
+		case strings.HasPrefix(a, "from="):
+			fmt.Sscanf(a, "from=%d", &from)
+		}
+	}
+	if !child {
+		udParent(w, seed, n, pass)
+		return
+	}
 	r := u.NewRng(seed)
 	o := &udOut{w: w, seen: map[string]int{}, dist: map[string]int{}}
-	udKeyPhases(o)
+	if from == 0 {
+		udKeyPhases(o)
+	}
 	defer func() {
 		if p := recover(); p != nil {
 			fmt.Fprintf(w, "MONFAIL\tudial/panic\t%v\t\n", p)
 		}
 	}()
-	only := ""
-	for _, a := range args {
-		if strings.HasPrefix(a, "only=") {
-			only = a[5:]
-		}
-	}
-	_ = os.Getenv
 	for i := 0; i < n; i++ {
 		rr := r.Fork()
+		if i < from {
+			continue
+		}
+		what := "Seq"
+		switch {
+		case i%8 == 7 && only == "":
+			what = "NilSpec"
+		case i%8 == 3 && (i/8)%2 == 0 && only == "":
+			what = "Reg"
+		case i%4 == 1 && only == "":
+			what = "Retx"
+		case i%2 == 0:
+			what = "Seq " + parrotNames[(i/2)%len(parrotNames)]
+		}
+		fmt.Fprintf(w, "START\t%d\tudial %d %d iteration %d (%s)\n", i, seed, n, i, what)
+		w.Flush()
+		if os.Getenv("VERIF_UDIAL_SELFTEST_CRASH") == fmt.Sprint(i) { // self-test of the crash attribution
+			go func() { panic("self-test: crash in another goroutine") }()
+			time.Sleep(time.Second)
+		}
 		switch {
 		case i%8 == 7 && only == "":
 			udNilSpec(o, rr)
